@@ -82,10 +82,13 @@ func (f *Dox) Call(s *slip.Scope, args slip.List, depth int) (result slip.Object
 					}
 					return tr
 				case *GoTo:
-					for i++; i < len(args); i++ {
+					for i = 2; i < len(args); i++ {
 						if args[i] == tr.Tag {
 							break
 						}
+					}
+					if len(args) <= i { // not a tag of this body, let an outer tagbody have it
+						return tr
 					}
 				}
 				// Anything other than ReturnResult or GoTo just continues.
